@@ -176,7 +176,12 @@ def load_config(cwd: Path) -> Config:
         raise ConfigError(f"permission denied accessing {USER_CONFIG}") from None
 
     # 2. Project config (walk up from cwd)
-    project_path = _find_project_config(cwd)
+    try:
+        project_path = _find_project_config(cwd)
+    except PermissionError:
+        raise ConfigError(
+            f"permission denied looking for {PROJECT_CONFIG_NAME} above {cwd}"
+        ) from None
     if project_path is not None:
         project_config = _load_config_file(project_path)
         project_config = _tag_rules(project_config, str(project_path), SCOPE_PROJECT)
